@@ -485,6 +485,12 @@ pub fn corpus(tier: Tier) -> Vec<Project> {
                 }
             }
         }
+        // a branch whose counts are a list with the fallback mark in the middle / first / last
+        for (i, counts) in [vec![CountSpec::UInt(1), CountSpec::Str("_".into()), CountSpec::UInt(2)], vec![CountSpec::Str("_".into()), CountSpec::UInt(2)], vec![CountSpec::UInt(1), CountSpec::UInt(2), CountSpec::Str("_".into())], vec![CountSpec::Str("1".into()), CountSpec::Str("..".into()), CountSpec::Str("2..5".into())]].into_iter().enumerate() {
+            for map_form in [false, true] {
+                e.push((format!("rl{i}{}", map_form as u8), Val::Range(RangeDecl { ty: Some("u8".into()), branches: vec![rb(st(&format!("[rl{i}.0]")), vec![CountSpec::UInt(0)], map_form), rb(s(vec![text(&format!("[rl{i}.some]")), var("count")]), counts.clone(), map_form)] })));
+            }
+        }
         let mut p = Project::new(Config::simple("en", &["en"]));
         p.set_file(None, "en", e);
         out.push(p);
